@@ -263,6 +263,17 @@ Theorem C10_distort_is_source : forall a b x y,
   distort_with DSip a b x y = src_distort false (poly2d a x y) (poly2d b x y) x y.
 Proof. exact distort_is_source. Qed.
 
+(* ... and root finding: the residual of _lonlatdiff and the use _findxy_one / _fsolve_xy make of fsolve (start value
+   = target = undistorted inverse, result returned unchanged), translated from the source; an added branch or
+   fallback in _fsolve_xy / _findxy_one / _findxy is refused by the translator. *)
+Theorem C10_rootfinder_is_source :
+  (forall w target xy,
+     lonlatdiff w target xy = src_lonlatdiff (fun x y => image2sky w x y true) (sky2image_nodistort w) target xy)
+  /\ (forall fsolve w s lon lat xtol,
+     snd (findxy_one fsolve w s lon lat xtol) =
+     src_findxy_one (sky2image_nodistort w) fsolve (lonlatdiff w) lon lat xtol).
+Proof. split; [exact lonlatdiff_is_source|exact findxy_one_is_source]. Qed.
+
 (* Non-vacuity: concrete distorted headers meet the hypotheses used above. *)
 Definition ex_header (p : proj) : header :=
   {| h_proj := p; h_crpix1 := 100; h_crpix2 := 200; h_crval1 := 359; h_crval2 := 89;
